@@ -545,9 +545,9 @@ def set_ops(dom, light=False):
     for r in range(0, 2 if light else 3):
         subs += [list(c) for c in itertools.combinations(toks, r)]
     for sub in subs:
-        for form in (["set", "list"] if not light else ["set"]):
+        for form in (["set", "frozenset", "list"] if not light else ["set"]):
             a = [form, sub]
-            if form == "set":
+            if form in ("set", "frozenset"):
                 ops += [("ior", a), ("iand", a), ("isub", a), ("ixor", a)]
             ops += [("update", [a]), ("symmetric_difference_update", a),
                     ("difference_update", [a]), ("intersection_update", [a])]
